@@ -255,6 +255,18 @@ func BuildTypeCtxByIndex(typeType *parser.TypeTypeContext, typeCtx *parser.Class
 }
 
 func (s *JavaFullListener) EnterLocalVariableDeclaration(ctx *parser.LocalVariableDeclarationContext) {
+	// "final Foo a = x, b = y;": modifiers come first and every declarator declares a variable
+	if ctx.TypeType() != nil && ctx.VariableDeclarators() != nil {
+		typ := ctx.TypeType().GetText()
+		for _, declarator := range ctx.VariableDeclarators().(*parser.VariableDeclaratorsContext).AllVariableDeclarator() {
+			declaratorId := declarator.(*parser.VariableDeclaratorContext).VariableDeclaratorId().(*parser.VariableDeclaratorIdContext)
+			if declaratorId.Identifier() != nil {
+				localVars[declaratorId.Identifier().GetText()] = typ
+			}
+		}
+		return
+	}
+
 	typ := ctx.GetChild(0).(antlr.ParseTree).GetText()
 	if ctx.GetChild(1) != nil {
 		if ctx.GetChild(1).GetChild(0) != nil && ctx.GetChild(1).GetChild(0).GetChild(0) != nil {
